@@ -108,7 +108,11 @@ func fsckImage(res *core.CaseResult, img core.DirImage, cfg gen.Config, origin, 
 }
 
 func runC07Crash(c run.Ctx) *core.CaseResult {
-	cfg, u, ops, r := c03Case(run.Ctx{Prop: "C07", Seed: c.Seed, Index: c.Index, Tier: c.Tier})
+	genTier := c.Tier
+	if (c.Index/16)%4 == 3 {
+		genTier = "burst" // a quarter of the crash-slice cases use the burst generator (>1024 frees between two flushes)
+	}
+	cfg, u, ops, r := c03Case(run.Ctx{Prop: "C07", Seed: c.Seed, Index: c.Index, Tier: genTier})
 	res := &core.CaseResult{ID: c.ID(), Verdict: "held"}
 	env, err := core.NewEnv(cfg)
 	if err != nil {
